@@ -180,6 +180,23 @@ example :
     (Fit.mk [m] [] true).addData 0 "d" [("b", .const 3 "3")] [false, true, false] [false, false, false] =
       (⟨withData [] m [] ⟨"d", [("a", .name "a"), ("b", .const 3 "3")], 2⟩, [], true⟩, none) := by decide
 
+/-- Further data is SEEN by the fit: the residual vector the fit evaluates (its length is `n_residuals`) grows by
+    exactly the valid points of the added dataset, whatever model it goes to and whether or not it introduces a new
+    parameter; nothing evaluated before the addition can still be the residual afterwards unless the dataset is
+    empty. (The harness reads the length of `Fit._calculate_residual()` at every query.) -/
+theorem add_data_residuals (pre post : List ModelData) (m : ModelData) (d : Data)
+    (table : List (String × Param)) (b b' : Bool) :
+    (Fit.mk (withData pre m post d) table b').nResiduals =
+      (Fit.mk (pre ++ m :: post) table b).nResiduals + d.npoints := by
+  simp only [Fit.nResiduals, withData, ModelData.nResiduals, List.map_append, List.map_cons, List.sum_append,
+    List.sum_cons, List.map_nil, List.sum_nil]
+  omega
+
+example :
+    let m : ModelData := ⟨[("a", none)], [⟨"d0", [("a", .name "a")], 3⟩], true⟩
+    (Fit.mk ([] ++ m :: []) [] true).nResiduals = 3 ∧
+    (Fit.mk (withData [] m [] ⟨"more", [("a", .name "a")], 5⟩) [] true).nResiduals = 8 := by decide
+
 /-- **add_data_monotone (1).** No global name is ever lost by adding data. -/
 theorem add_data_names_mono (pre post : List ModelData) (m : ModelData) (d : Data) (n : String)
     (h : n ∈ globalNames (pre ++ m :: post)) : n ∈ globalNames (withData pre m post d) := by
